@@ -539,3 +539,24 @@ Proof.
 Qed.
 
 End Fam.
+
+(** ** The variable reading of a set of levels
+
+    The API speaks about variable numbers, [famz] lists levels; the two are
+    related by the bijection level_to_var / var_to_level of the snapshot. *)
+
+Definition vars_of (s : snap) (S : lset) : list nat := map (fun l => nth l (s_l2v s) 0) S.
+
+Theorem var_view_mem : forall s v vl S, WF s ->
+  nth_error (s_v2l s) v = Some vl -> Forall (fun x => x < nlevels s) S ->
+  (In v (vars_of s S) <-> In vl S).
+Proof.
+  intros s v vl S H Ev Hb. unfold vars_of. rewrite in_map_iff. split.
+  - intros [l [El Hl]]. rewrite Forall_forall in Hb. specialize (Hb l Hl).
+    destruct (wf_perm_l2v s H l Hb) as [j [E1 E2]].
+    rewrite (nth_error_nth _ _ 0 E1) in El. subst j. rewrite Ev in E2. inversion E2; subst. exact Hl.
+  - intros Hl. exists vl. split; [|exact Hl].
+    assert (Hv : v < length (s_v2l s)) by (apply nth_error_Some; congruence).
+    destruct (wf_perm_v2l s H v Hv) as [j [E1 E2]]. rewrite Ev in E1. inversion E1; subst j.
+    apply (nth_error_nth _ _ 0 E2).
+Qed.
